@@ -56,6 +56,13 @@ def configs(tier):
         for kind in ("const", "lin", "disc"):
             for K in ((3, 4) if q else (3, 4, 5)):
                 for sh in shapes(K, tier):
+                    if kind == "disc" and K >= 4:
+                        # event times of all pairs are totally ordered by the solver: 6 events = 4 683
+                        # weak orderings, 7 = 47 293
+                        if q and sum(sh) > len(sh):
+                            continue
+                        if not q and (sum(sh) > len(sh) + 1 or K > 4):
+                            continue
                     yield dict(name="agg-%s-%s-K%d-%s" % (be, kind, K, "".join(map(str, sh))), what="agg", backend=be,
                                kind=kind, K=K, shape=list(sh), fork=(kind == "lin"), validate=2,
                                cost=40 * 3 ** (sum(sh) - len(sh)) * K, split_forks=(7 if sum(sh) - len(sh) >= 4 else None))
